@@ -127,6 +127,20 @@ Theorem C05_nonnull_less_than_null : forall k asc rest a b x,
 Proof. exact order_less_nonnull_before_null. Qed.
 Print Assumptions C05_nonnull_less_than_null.
 
+(* the scope is not an artefact: in a column mixing numbers and strings the comparator has a cycle
+   (9 < 10 by value, 10 < "5" < 9 by text), and NaN is "less" than itself; the boolean scope check
+   rejects both tables *)
+Theorem C05_out_of_scope_refuted :
+  let less := order_less [(["k"%string], true)] in
+  less (kv (VNum 9%float)) (kv (VNum 10%float)) = Ok true /\
+  less (kv (VNum 10%float)) (kv (VStr "5")) = Ok true /\
+  less (kv (VStr "5")) (kv (VNum 9%float)) = Ok true /\
+  less (kv (VNum nan)) (kv (VNum nan)) = Ok true /\
+  sort_scope_b [kv (VNum 9%float); kv (VNum 10%float); kv (VStr "5")] [(["k"%string], true)] = false /\
+  sort_scope_b [kv (VNum nan)] [(["k"%string], true)] = false.
+Proof. exact mixed_kinds_cycle. Qed.
+Print Assumptions C05_out_of_scope_refuted.
+
 (* ================================================================== *)
 (* the sorting contract and its executable instance                    *)
 (* ================================================================== *)
